@@ -280,6 +280,11 @@ def single_op(spec):
                       "v": v, "vs": st.lists(v, max_size=3), "i": st.integers(-4, 4)})
         lops = st.integers(0, len(typed_lists) - 1).flatmap(lop)
         ops += [lops] * 4
+
+        def lfill(i):
+            item = typed_lists[i][1]["item"]
+            return D({"op": J("listfill"), "tl": J(i), "vs": st.lists(specs.values(item), min_size=4, max_size=8), "k": st.integers(0, 4)})
+        ops.append(st.integers(0, len(typed_lists) - 1).flatmap(lfill))
     if typed_dicts:
         def dop(i):
             n = typed_dicts[i][1]
@@ -366,6 +371,14 @@ def prepare(world, state, op):
                     dst.update(value)
                 else:
                     return Outcome("skipped")
+            return out
+        if name == "listfill":
+            # bring a typed list to an exact length with acceptable items (lengths around the limits of list-level rules)
+            tls = [(p, n) for p, n in leaves if n["kind"] == "list" and n.get("item")]
+            path, node = tls[op["tl"] % len(tls)]
+            good = [v for v in (specs.realize(x) for x in op["vs"]) if v is not None and refmodel.ref(node["item"], v, world.ctx)[0] == A][: op["k"]]
+            out = Outcome("ok", target=path, info={"node": node, "value": good, "how": "setattr"})
+            set_via(cfg, path, good, "setattr")
             return out
         if name == "listop":
             tls = [(p, n) for p, n in leaves if n["kind"] == "list" and n.get("item")]
